@@ -162,7 +162,18 @@ def handle_path_command(args: argparse.Namespace) -> None:  # noqa: PLR0912, D10
         sys.exit(1)
 
     indent = INDENT if args.pretty else None
-    json.dump(values, args.output, indent=indent)
+
+    try:
+        # Serialize before writing, so there's no partial output on failure.
+        result = json.dumps(values, indent=indent)
+    except RecursionError as err:
+        # Values nested about as deeply as the interpreter's stack allows.
+        if args.debug:
+            raise
+        sys.stderr.write(f"error: result is too deeply nested to serialize: {err}\n")
+        sys.exit(1)
+
+    args.output.write(result)
 
 
 def main() -> None:
